@@ -24,6 +24,7 @@ mod c19;
 mod c20;
 mod dl;
 mod life;
+mod ls;
 mod md;
 mod util;
 
@@ -75,6 +76,7 @@ fn main() {
         "LIFE" => life::replay(&cases, &mut rep),
         "MD" => md::replay(&cases, &mut rep),
         "DL" => dl::replay(&cases, &mut rep),
+        "LS" => ls::replay(&cases, &mut rep),
         p => tool_error(&format!("no replay driver for {p}")),
       }
       rep.write(&args[4]);
